@@ -1127,4 +1127,124 @@ theorem step_log (keep : Bool) (s : Sp) (a : Act) :
   | split i a => simp [Splits.step, envSplit_log, callIds]
   | merge i j => simp [Splits.step, envMerge_log, callIds]
 
+/-! ## Job recovery -/
+
+theorem publish_cases (cur : Option JCk) (c x : JCk) (h : publish cur c = some x) : x = c ∨ cur = some x := by
+  unfold publish at h
+  cases cur with
+  | none => simp at h; exact Or.inl h.symm
+  | some o =>
+    simp only at h
+    split at h
+    · exact Or.inl (Option.some.inj h).symm
+    · exact Or.inr h
+
+theorem foldl_publish_cases (l : List JCk) (cur : Option JCk) (x : JCk) (h : l.foldl publish cur = some x) :
+    x ∈ l ∨ cur = some x := by
+  induction l generalizing cur with
+  | nil => exact Or.inr h
+  | cons a l ih =>
+    rcases ih _ h with h1 | h1
+    · exact Or.inl (List.mem_cons_of_mem _ h1)
+    · rcases publish_cases _ _ _ h1 with h2 | h2
+      · exact Or.inl (h2 ▸ List.mem_cons_self)
+      · exact Or.inr h2
+
+structure JInv (s : JSt) : Prop where
+  cur : ∀ c, s.current = some c → c ∈ s.reported
+  held : ∀ c ∈ s.held, c ∈ s.reported
+  ids : ∀ c ∈ s.reported, c.1 ≤ s.lastId
+  nodup : (s.reported.map (·.1)).Nodup
+
+theorem JInv.release (s : JSt) (h : JInv s) : JInv (jrelease s) := by
+  refine ⟨?_, ?_, h.ids, h.nodup⟩
+  · intro c hc
+    rcases foldl_publish_cases _ _ _ hc with h1 | h1
+    · exact h.held c h1
+    · exact h.cur c h1
+  · intro c hc; simp [jrelease] at hc
+
+theorem JInv.step (s : JSt) (h : JInv s) (a : JAct) : JInv (jstep s a).1 := by
+  cases a with
+  | ckpt pos hold =>
+    have hids : ∀ c ∈ s.reported ++ [(s.lastId + 1, pos)], c.1 ≤ s.lastId + 1 := by
+      intro c hc
+      rcases List.mem_append.mp hc with h1 | h1
+      · have := h.ids c h1; omega
+      · simp only [List.mem_singleton] at h1; subst h1; exact Nat.le_refl _
+    have hnd : ((s.reported ++ [(s.lastId + 1, pos)]).map (·.1)).Nodup := by
+      simp only [List.map_append, List.map_cons, List.map_nil]
+      rw [List.nodup_append]
+      refine ⟨h.nodup, by simp, ?_⟩
+      intro a ha b hb e
+      simp only [List.mem_singleton] at hb
+      obtain ⟨c, hc, rfl⟩ := List.mem_map.mp ha
+      have := h.ids c hc
+      omega
+    cases hold with
+    | true =>
+      refine ⟨?_, ?_, hids, hnd⟩
+      · intro c hc; exact List.mem_append_left _ (h.cur c hc)
+      · intro c hc
+        rcases List.mem_append.mp hc with h1 | h1
+        · exact List.mem_append_left _ (h.held c h1)
+        · exact List.mem_append_right _ h1
+    | false =>
+      refine ⟨?_, ?_, hids, hnd⟩
+      · intro c hc
+        rcases publish_cases _ _ _ hc with h1 | h1
+        · exact List.mem_append_right _ (by simp [h1])
+        · exact List.mem_append_left _ (h.cur c h1)
+      · intro c hc; exact List.mem_append_left _ (h.held c hc)
+  | release => exact JInv.release s h
+  | start race =>
+    cases race with
+    | true => exact JInv.release s h
+    | false => exact h
+
+theorem jstep_reported_mono (s : JSt) (a : JAct) : ∀ c ∈ s.reported, c ∈ (jstep s a).1.reported := by
+  intro c hc
+  cases a with
+  | ckpt pos hold => cases hold <;> exact List.mem_append_left _ hc
+  | release => exact hc
+  | start race => cases race <;> exact hc
+
+theorem jrun_cons (s : JSt) (a : JAct) (as : List JAct) :
+    jrun s (a :: as) = ((jrun (jstep s a).1 as).1, (jstep s a).2.toList ++ (jrun (jstep s a).1 as).2) := rfl
+
+theorem jrun_reported_mono (as : List JAct) (s : JSt) : ∀ c ∈ s.reported, c ∈ (jrun s as).1.reported := by
+  induction as generalizing s with
+  | nil => intro c hc; exact hc
+  | cons a as ih =>
+    intro c hc
+    rw [jrun_cons]
+    exact ih _ c (jstep_reported_mono s a c hc)
+
+theorem jrun_inv (as : List JAct) (s : JSt) (h : JInv s) : JInv (jrun s as).1 := by
+  induction as generalizing s with
+  | nil => exact h
+  | cons a as ih => rw [jrun_cons]; exact ih _ (JInv.step s h a)
+
+theorem jrun_obs (as : List JAct) (s : JSt) (h : JInv s) :
+    ∀ o ∈ (jrun s as).2, o = (none, none) ∨ ∃ c ∈ (jrun s as).1.reported, o = (some c.1, some c.2) := by
+  induction as generalizing s with
+  | nil => intro o ho; simp [jrun] at ho
+  | cons a as ih =>
+    intro o ho
+    rw [jrun_cons] at ho ⊢
+    rcases List.mem_append.mp ho with h1 | h1
+    · -- the observation of this step
+      cases a with
+      | ckpt pos hold => simp [jstep] at h1
+      | release => simp [jstep] at h1
+      | start race =>
+        simp only [jstep, Option.toList_some, List.mem_singleton] at h1
+        cases hc : s.current with
+        | none => left; rw [h1, hc]; rfl
+        | some c =>
+          right
+          refine ⟨c, jrun_reported_mono as _ c (jstep_reported_mono s _ c (h.cur c hc)), ?_⟩
+          rw [h1, hc]; rfl
+    · exact ih _ (JInv.step s h a) o h1
+
 end Rxn.Splits
